@@ -20,6 +20,8 @@ TYPES = {
                         ('has_len_ext', 'Bool'), ('len_ext', 'Int'), ('reason', 'Int'), ('enc', 'Bytes')]),
     # D-Bus signals (ghost)
     'Signal': ('tuple', [('name', 'Int'), ('bid', 'Str'), ('length', 'Int'), ('result', 'Str')]),
+    # (host, port) as the agent passes it to a handler
+    'AddrPair': ('tuple', [('host', 'Str'), ('port', 'Int')]),
     'ParamVal': ('union', [('none', 'None'), ('int', 'Int'), ('str', 'Str'), ('ip', 'Any[ipaddr]'), ('false', 'None')]),
 }
 
@@ -65,7 +67,8 @@ SCHEMAS = {
                              '_sessinit_peer': 'Opt[Pkt[SessionInit]]', '_sessinit_this': 'Opt[Pkt[SessionInit]]',
                              '_sess_parameters': 'Dict[Str, ParamVal]', '_in_sess': 'Bool', '_in_sess_func': 'Opt[Func]',
                              '_in_term': 'Bool', '_in_term_func': 'Opt[Func]', '_tls_attempt': 'Int', '_is_open': 'Bool',
-                             '_Messenger__rx_buf': 'Bytes', '_Messenger__tx_buf': 'Bytes'}},
+                             '_Messenger__rx_buf': 'Bytes', '_Messenger__tx_buf': 'Bytes',
+                             '_from': 'Opt[AddrPair]', '_to': 'Opt[AddrPair]'}},
     'ContactHandler': {'pyclass': ('tcpcl.session', 'ContactHandler'), 'bases': ['Messenger'],
                        'fields': {'object_path': 'Str', '_tx_next_id': 'Int',
                                   '_tx_pend_start': 'List[Ref[BundleItem]]', '_tx_pend_ack': 'Set[Ref[BundleItem]]',
@@ -116,6 +119,7 @@ GHOST = {
     'src_armed': 'Set[Int]',
     'src_delay': 'Dict[Int, Int]',
     'src_cb': 'Dict[Int, Int]',
+    'idle_resets': 'Int',      # number of times the idle timer was restarted (Messenger._idle_reset)
     # protocol events handed to send_message, in order; and their encodings concatenated
     'trace': 'List[Event]',
     'enc_stream': 'Bytes',
